@@ -218,9 +218,12 @@ def run_c16(chk):
         chk.leanchecker(["Properties.C16"])
     n = 150 if tier == "quick" else 3000
     ks = [Knobs(p_scen=1.0, envelope="asap", p_limits=0.4, big_effort=0.25, dur_weeks=[1, 2]),
-          Knobs(p_scen=1.0, envelope="alap", p_limits=0.3)]
+          Knobs(p_scen=1.0, envelope="alap", p_limits=0.3),
+          # scenario-specific dates, also on containers without a date of their own
+          Knobs(p_scen=1.0, p_scen_date=0.35, envelope="asap", p_container=0.7, p_limits=0.2, dur_weeks=[2, 3]),
+          Knobs(p_scen=1.0, p_scen_date=0.3, envelope="alap", p_container=0.7, p_limits=0.2, dur_weeks=[2, 3])]
     asts = [w for _, w in SC.witness_asts("C16")]
-    asts += [gen.gen_project(chk.rng, ks[i % 2]) for i in range(n)]
+    asts += [gen.gen_project(chk.rng, ks[i % 4]) for i in range(n)]
     base = project_stream.run_projects(chk, asts, want_oracles=())
     dis = [{"stream": "project", "text": r["text"], "ast": r["ast"], "diffs": r["diffs"][:6]} for r in base if r["diffs"] and not r["skipped"]]
     singles = []
@@ -252,7 +255,7 @@ def run_c16(chk):
             nontriv += 1
     chk.cov["evaluations"] += len(singles)
     chk.cov["distinct_nontrivial"] = nontriv
-    chk.cov["rule"] = ("projects with 2-3 (nested) scenarios and scenario-specific effort overrides scheduled by the real code; each scenario's "
+    chk.cov["rule"] = ("projects with 2-3 (nested) scenarios and scenario-specific effort / start / end overrides (dates also on containers without a date of their own) scheduled by the real code; each scenario's "
                        "dates, ledgers and limit counters must equal those of the single-scenario text with the overrides (own or inherited from the "
                        "parent scenario) applied; multi-scenario runs also compared scenario by scenario with the Lean model; non-trivial = "
                        "(project, scenario) pairs of projects that declare an override")
